@@ -113,6 +113,23 @@ impl Shared {
             g = g2;
         }
     }
+    /// Stop logging at a moment when `pred(log)` holds (decided under the
+    /// lock, so nothing can slip in between) or at the deadline; returns the
+    /// final log and whether `pred` held.
+    fn close_when(&self, deadline: Duration, pred: impl Fn(&[Ev]) -> bool) -> (Vec<Ev>, bool) {
+        let t0 = Instant::now();
+        let mut g = self.log.lock().unwrap_or_else(|p| p.into_inner());
+        loop {
+            let ok = pred(&g);
+            if ok || t0.elapsed() >= deadline {
+                self.open.store(false, Ordering::SeqCst);
+                return (g.clone(), ok);
+            }
+            let (g2, _) = self.cv.wait_timeout(g, Duration::from_millis(50)).unwrap_or_else(|p| p.into_inner());
+            g = g2;
+        }
+    }
+    #[allow(dead_code)]
     fn snapshot(&self) -> Vec<Ev> {
         self.log.lock().unwrap_or_else(|p| p.into_inner()).clone()
     }
@@ -479,30 +496,24 @@ fn run_scenario(sc: &Scenario) -> Outcome {
         for hd in handles {
             let _ = hd.join();
         }
-        let all: Vec<u32> = sc.reqs.iter().map(|r| r.id).chain(sc.probe).collect();
-        let q = sh.wait_for(MID, |l| {
-            all.iter().all(|q| {
-                !l.contains(&Ev::Start(*q))
-                    || l.iter().any(|e| matches!(e, Ev::Finish(x) | Ev::Panic(x) | Ev::Dropped(x) if x == q))
-            })
-        });
-        if q.is_none() {
-            notes.lock().unwrap().push("missed:not-quiescent-in-30s".into());
-        }
         // a request that was cut short or closed at once may still reach its
-        // handler a moment later; give such stragglers time to show up and end
+        // handler a moment later; give such stragglers time to show up
         if sc.reqs.iter().any(|r| matches!(r.client, Client::SendClose { .. } | Client::Cut { .. })) {
             std::thread::sleep(Duration::from_millis(120));
-            let _ = sh.wait_for(MID, |l| {
-                all.iter().all(|q| {
-                    !l.contains(&Ev::Start(*q))
-                        || l.iter().any(|e| matches!(e, Ev::Finish(x) | Ev::Panic(x) | Ev::Dropped(x) if x == q))
-                })
-            });
         }
     });
-    sh.open.store(false, Ordering::SeqCst);
-    let trace = sh.snapshot();
+    // the log is closed at a moment when every handler that has started has ended
+    let all: Vec<u32> = sc.reqs.iter().map(|r| r.id).chain(sc.probe).collect();
+    let (trace, quiet) = sh.close_when(MID, |l| {
+        all.iter().all(|q| {
+            !l.contains(&Ev::Start(*q))
+                || l.iter().any(|e| matches!(e, Ev::Finish(x) | Ev::Panic(x) | Ev::Dropped(x) if x == q))
+        })
+    });
+    if !quiet {
+        notes.lock().unwrap().push("missed:not-quiescent-in-30s".into());
+    }
+
     drop(server);
     runtime.shutdown_background();
     Outcome { trace, notes: notes.into_inner().unwrap() }
